@@ -15,3 +15,6 @@ Proof. vm_compute; reflexivity. Qed.
 (* the pre-repair skeletons are rejected by the same checkers *)
 Example tie_tx_v0_rejected : txn_skel_ok_strict txn_commit_skel_v0 = false /\ txn_discard_skel_ok_strict txn_discard_skel_v0 = false.
 Proof. split; vm_compute; reflexivity. Qed.
+(* one logged ref update = one SQL transaction (the atomic step WSetWithLog of the model) *)
+Example tie_setwithlog_atomic : setwithlog_shape = "RunInTx".
+Proof. vm_compute; reflexivity. Qed.
